@@ -178,23 +178,38 @@ def tracker_operator(run, prog, cls, rule, prefix):
     return base
 
 
-def meanout_arg(r):
+def meanout_arg(r, events=()):
     """If r is the mean model output {l: sum(o.get(l, 0) for o in outs) / len(outs) for l in union of
     the outputs' keys}, return (outs, ''), else (None, reason). Works on the inlined helper as well as on
-    an explainer that spells the mean out itself."""
+    an explainer that spells the mean out itself; the dict may be a comprehension or an accumulator
+    filled in a loop over the labels (events = the enclosing summary's events)."""
+    from .common import dict_build
     if r[0] == "res" and r[2] == MEANOUT and r[3]:
-        return r[3][0], ""                      # helper kept as a call (e.g. recursion bound): trust its own check
-    if not (r[0] == "comp" and r[1] == "dict" and not r[6] and r[4] == ("elem", r[2])):
-        return None, f"{ir.show_nl(r)[:120]} is not a dict over the labels"
-    labels, lab = r[3], ("elem", r[2])
-    if not (labels[0] == "comp" and labels[1] == "set" and not labels[6] and labels[5][0] == "flat"):
-        return None, f"labels range over {ir.show_nl(labels)[:100]}, expected the union of all output keys"
+        return r[3][0], ""                      # helper kept as a call (inlining bound): its own check applies
+    db = dict_build(r, events)
+    if db is None or not db.entries:
+        return None, f"{ir.show_nl(r)[:120]} is not a dict built over the labels"
+    if db.kind == "comp" and r[6]:
+        return None, "labels are filtered"
+    if len(db.entries) != 1 or db.init_items:
+        return None, f"{len(db.entries)} writes to the mean-output dict"
+    key, v, ectx, eev = db.entries[0]
+    lab = ("elem", db.lid)
+    if key != lab:
+        return None, f"key {ir.show_nl(key)[:60]} is not the label being averaged"
+    labels = db.over
+    if labels is None or not (labels[0] == "comp" and labels[1] == "set" and not labels[6] and labels[5][0] == "flat"):
+        return None, f"labels range over {ir.show_nl(labels)[:100] if labels else None}, expected the union of all output keys"
     outs = labels[3]
     inner = labels[5][1]
     lab_ok = inner[0] == "comp" and inner[3] == ("elem", labels[2]) and inner[5] == ("elem", inner[2]) and not inner[6]
     if not lab_ok:
         return None, f"labels range over {ir.show_nl(labels)[:100]}, expected the union of all output keys"
-    v = r[5]
+    if ectx is not None:
+        # the only guard allowed around the accumulation is a test on the label set itself (empty -> {})
+        for g in ectx.guards:
+            if lab in ir.subterms(g):          # a per-label condition would drop labels from the mean
+                return None, f"a label is only averaged when {ir.show_nl(g)[:80]}"
     if not (v[0] == "op" and v[1] == "/"):
         return None, f"value {ir.show_nl(v)[:120]} is not sum/len"
     num, den = v[2], v[3]
@@ -222,7 +237,7 @@ def meanout_ok(run, prog, rule, inst):
     run.analysed_fn("_get_mean_model_output")
     _, fn = prog.func(MEANOUT)
     outs = ("param", fn.args.args[0].arg)
-    got, why = meanout_arg(s.ret)
+    got, why = meanout_arg(s.ret, s.events)
     ok = got == outs
     run.check(ok, rule, inst, f"{s.path}:{s.fn.lineno}", "_get_mean_model_output", f"mean output: {why or 'ok'}",
               f"the mean model output must be, per label of any output, the sum of output.get(label, 0) divided by the "
